@@ -2,6 +2,9 @@
 #include "../../../common/debug.h"
 #include "../../../common/debug_messages.h"
 #include "../core/interpreter.h"
+#ifdef CB_VERIF
+#include "../../../common/cb_verif_hook.h"
+#endif
 #include <iostream>
 #include <string>
 
@@ -68,6 +71,9 @@ int SimpleEventLoop::register_task(AsyncTask task) {
     tasks_[task_id] = task;
 
     task_queue_.push_back(task_id);
+#ifdef CB_VERIF
+    cb_verif_trace("spawn %d %s", task_id, task.function_name.c_str());
+#endif
 
     debug_msg(DebugMsgId::ASYNC_TASK_REGISTER, task.function_name.c_str(),
               task_id);
@@ -76,6 +82,9 @@ int SimpleEventLoop::register_task(AsyncTask task) {
 }
 
 void SimpleEventLoop::run() {
+#ifdef CB_VERIF
+    cb_verif_trace("run");
+#endif
     if (task_queue_.empty()) {
         return;
     }
@@ -102,6 +111,15 @@ void SimpleEventLoop::run() {
 // async関数呼び出し時にバックグラウンドでタスクを少しずつ実行するために使用
 // 協調的マルチタスク: mainとバックグラウンドタスクが交互に実行される
 void SimpleEventLoop::run_one_cycle() {
+#ifdef CB_VERIF
+    {
+        std::string q;
+        for (int id : task_queue_) {
+            q += (q.empty() ? "" : ",") + std::to_string(id);
+        }
+        cb_verif_trace("cycle q=%s", q.c_str());
+    }
+#endif
     if (task_queue_.empty()) {
         return;
     }
@@ -115,6 +133,9 @@ void SimpleEventLoop::run_one_cycle() {
     // v0.13.0: 現在実行中のタスクはスキップ（再帰実行を防ぐ）
     if (task_id == current_executing_task_id_) {
         debug_msg(DebugMsgId::EVENT_LOOP_SKIP_EXECUTING, task_id);
+#ifdef CB_VERIF
+        cb_verif_trace("skip %d executing", task_id);
+#endif
         // キューに戻す
         task_queue_.push_back(task_id);
         return;
@@ -159,6 +180,9 @@ bool SimpleEventLoop::execute_one_step(int task_id) {
     AsyncTask &task = it->second;
 
     if (task.is_executed) {
+#ifdef CB_VERIF
+        cb_verif_trace("skip %d finished", task_id);
+#endif
         return false;
     }
 
@@ -173,6 +197,10 @@ bool SimpleEventLoop::execute_one_step(int task_id) {
             debug_msg(DebugMsgId::EVENT_LOOP_TASK_RESUME, task_id);
         } else {
             // まだ待機中
+#ifdef CB_VERIF
+            cb_verif_trace("skip %d waiting %d", task_id,
+                           task.waiting_for_task_id);
+#endif
             return true; // キューに戻す
         }
     }
@@ -199,6 +227,9 @@ bool SimpleEventLoop::execute_one_step(int task_id) {
             // まだsleep中
             debug_msg(DebugMsgId::SLEEP_TASK_SLEEPING, task_id,
                       task.wake_up_time_ms - current_time_ms);
+#ifdef CB_VERIF
+            cb_verif_trace("skip %d sleeping", task_id);
+#endif
             return true; // 継続（まだsleep中）
         } else {
             // sleep完了
@@ -224,6 +255,9 @@ bool SimpleEventLoop::execute_one_step(int task_id) {
                     }
                 }
 
+#ifdef CB_VERIF
+                cb_verif_trace("done %d", task_id);
+#endif
                 return false; // タスク完了
             }
         }
@@ -295,6 +329,10 @@ bool SimpleEventLoop::execute_one_step(int task_id) {
                 task.future_var->struct_members["value"] = result_var;
             }
 
+#ifdef CB_VERIF
+            cb_verif_trace("timeout %d", task_id);
+            cb_verif_trace("done %d", task_id);
+#endif
             return false; // タスク完了
         }
     }
@@ -319,6 +357,9 @@ bool SimpleEventLoop::execute_one_step(int task_id) {
         return false;
     }
 
+#ifdef CB_VERIF
+    cb_verif_trace("step %d", task_id);
+#endif
     // スコープスタックのサイズを記録
     size_t scope_stack_size_before = interpreter_.get_scope_stack().size();
 
@@ -408,6 +449,9 @@ bool SimpleEventLoop::execute_one_step(int task_id) {
                     if (task.auto_yield) {
                         // Auto-yield after statement
                     }
+#ifdef CB_VERIF
+                    cb_verif_trace("suspend %d auto stmt", task_id);
+#endif
                     return true; // 次のステートメントがあるので継続
                 } else {
                     // 全ステートメント実行完了
@@ -430,6 +474,9 @@ bool SimpleEventLoop::execute_one_step(int task_id) {
                         }
                     }
 
+#ifdef CB_VERIF
+                    cb_verif_trace("done %d", task_id);
+#endif
                     return false;
                 }
             } else {
@@ -440,6 +487,9 @@ bool SimpleEventLoop::execute_one_step(int task_id) {
                        scope_stack_size_before) {
                     interpreter_.pop_scope();
                 }
+#ifdef CB_VERIF
+                cb_verif_trace("done %d", task_id);
+#endif
                 return false;
             }
         } else {
@@ -466,6 +516,9 @@ bool SimpleEventLoop::execute_one_step(int task_id) {
                    scope_stack_size_before) {
                 interpreter_.pop_scope();
             }
+#ifdef CB_VERIF
+            cb_verif_trace("done %d", task_id);
+#endif
             return false;
         }
     } catch (const YieldException &e) {
@@ -491,6 +544,10 @@ bool SimpleEventLoop::execute_one_step(int task_id) {
             task.current_statement_index++;
         }
 
+#ifdef CB_VERIF
+        cb_verif_trace("suspend %d %s", task_id,
+                       e.is_from_loop ? "auto loop" : "yield");
+#endif
         return true; // キューに戻す
     } catch (const ReturnException &e) {
         // return文で完了
@@ -694,6 +751,9 @@ bool SimpleEventLoop::execute_one_step(int task_id) {
                scope_stack_size_before) {
             interpreter_.pop_scope();
         }
+#ifdef CB_VERIF
+        cb_verif_trace("done %d", task_id);
+#endif
         return false;
     } catch (...) {
         // その他の例外
@@ -702,6 +762,9 @@ bool SimpleEventLoop::execute_one_step(int task_id) {
                scope_stack_size_before) {
             interpreter_.pop_scope();
         }
+#ifdef CB_VERIF
+        cb_verif_trace("abort %d", task_id);
+#endif
         throw;
     }
 }
